@@ -414,3 +414,28 @@ def solve(F):
         st2, _, _ = solve(G)
         return ("infeasible" if st2 == "infeasible" else "fail"), None, None
     return "fail", None, None
+
+
+def lp_feasible(lp, tol=1e-7):
+    """independent feasibility verdict for an extracted constraint system: 'feasible' / 'infeasible' / 'fail'"""
+    from scipy.optimize import linprog
+    from scipy.sparse import csr_matrix
+
+    A, b0 = lp["A"], lp["b0"]
+    lo, hi = lp["lbg"] - b0, lp["ubg"] - b0
+    eq = np.isfinite(lo) & (lo == hi)
+    ub_rows = [A[i] for i in range(len(lo)) if not eq[i] and np.isfinite(hi[i])] + \
+              [-A[i] for i in range(len(lo)) if not eq[i] and np.isfinite(lo[i])]
+    ub_rhs = [hi[i] for i in range(len(lo)) if not eq[i] and np.isfinite(hi[i])] + \
+             [-lo[i] for i in range(len(lo)) if not eq[i] and np.isfinite(lo[i])]
+    n = A.shape[1]
+    bounds = [(None if not np.isfinite(l) else l, None if not np.isfinite(u) else u)
+              for l, u in zip(lp["lbx"], lp["ubx"])]
+    r = linprog(np.zeros(n), A_ub=csr_matrix(np.array(ub_rows)) if ub_rows else None, b_ub=ub_rhs if ub_rows else None,
+                A_eq=csr_matrix(A[eq]) if eq.any() else None, b_eq=lo[eq] if eq.any() else None, bounds=bounds,
+                method="highs", options={"primal_feasibility_tolerance": tol})
+    if r.status == 0:
+        return "feasible"
+    if r.status == 2:
+        return "infeasible"
+    return "fail"
